@@ -85,7 +85,10 @@ RULE = ("the lattice emitter kind (GaussianEmitter, IsoLineEmitter, GeneticAlgor
         "emitter must refuse and goes on (tell_dqd with a NaN / inf entry in the Jacobian, a Jacobian of the wrong "
         "trailing shape or number of gradients, a wrong-length objective; tell with a wrong-length / NaN objective or "
         "solutions of the wrong dimension; GradientArborescenceEmitter.ask / tell before any gradients): every later "
-        "ask is read as if the refused call had not been made. Stratum pycma_shared: two pycma_es emitters (different "
+        "ask is read as if the refused call had not been made; in a fifth of the iterations of the evolution-strategy and "
+        "gradient-arborescence emitters the caller clips the batch into a box of its own before evaluating and telling "
+        "it (told != asked), and the gradient arborescence emitter is also driven through ask_dqd -> tell_dqd -> ask -> "
+        "ask_dqd -> tell_dqd -> tell. Stratum pycma_shared: two pycma_es emitters (different "
         "batch sizes, bounds, seeds) built from ONE shared es_kwargs dict, run past their restarts. Strata big_<es>: deterministic size-threshold cases for every strategy (batch 64-256 on "
         "solution_dim 1-3 with selection_rule mu on a sphere; LM-MA-ES with batch 32-48 on dimension 40-64 and with "
         "es_kwargs n_vectors 40 / 64; 26-70 uninterrupted generations), every ask read. Strata long_<es>: "
@@ -997,6 +1000,18 @@ def run_case(case, ctx):
                         f.key = "D23-gae-jacobian-dtype"
                     return f
                 asks.append(("gaeAsk", out))
+                if op.get("regrad"):
+                    # gradients are supplied again between ask() and tell() (ask_dqd -> tell_dqd -> ask -> ask_dqd ->
+                    # tell_dqd -> tell): what ask_dqd returns is read like every other batch
+                    p2 = em.ask_dqd()
+                    f = oracle_array(where + " ask_dqd (second of the iteration)", p2, 1, dim, sd, lo, hi)
+                    if f is not None:
+                        return f
+                    obj2, meas2 = evaluate(p2)
+                    info2 = arch.add(p2, obj2, meas2)
+                    jac2 = (rng_j.integers(-4, 5, size=(1, 3, dim)) / 4).astype(info["jdt"])
+                    em.tell_dqd(np.array(p2, copy=True), obj2, meas2, jac2, info2)
+                    ctx.count("iter:gradients-resupplied-between-ask-and-tell")
             # dtype algebra: the repaired expression is what the property demands
             for ek, arr in asks:
                 dm = dtype_model(drv, ek, sd, md, jd)
@@ -1005,6 +1020,13 @@ def run_case(case, ctx):
                     return Failure("corr", f"{where}: dtype impl={got} model={dm['rep']} for {ek}")
             # evaluate, add, tell
             out = asks[-1][1]
+            if op.get("post") and kind in ES_KINDS + GAE_KINDS and len(out):
+                # the caller post-processes the batch before evaluating it (projects it into a box of its own) and
+                # tells what it evaluated: the solutions told are not bit-identical to what ask() returned
+                told = np.clip(out, -0.5, 0.5).astype(out.dtype)
+                if not np.array_equal(told, out):
+                    ctx.count("tell:told!=asked(caller clipped the batch)")
+                out = told
             obj, meas = evaluate(out)
             if noadd:
                 ctx.count("iter:nothing-inserted")
@@ -1061,6 +1083,10 @@ def gen_ops(rng, state, dim, n_iter, kind, init=False):
             ops.append({"op": "iter", "noadd": True})
         else:
             ops.append({"op": "iter"})
+        if kind in ES_KINDS + GAE_KINDS and rng.random() < 0.2:
+            ops[-1]["post"] = True       # the caller clips the batch before evaluating and telling it
+        if kind in GAE_KINDS and rng.random() < 0.2:
+            ops[-1]["regrad"] = True     # ask_dqd / tell_dqd once more between ask and tell
         if rng.random() < 0.3:
             # a call the emitter must refuse is made in the middle of this iteration (run_case: reject_*)
             pool = list(TELL_REJECTS)
